@@ -12,7 +12,12 @@ ops:   ["cb"] ["eb"]            outer.callback(value) / outer.errback(failure)
                                 three or more deep (outer waits on inner k, inner k waits on the new one)
        ["fi", k, "ok"|"fail"]   fire inner k (k = -1: the most recently created one, -2 the one before)
        ["ci", k]                inner k .cancel()
+       ["pause", t] ["unpause", t]   t = "o" (outer) or an inner index; unpause is ignored unless the
+                                harness itself has an unmatched pause of that Deferred
 An inner operation that names an inner Deferred that does not exist is ignored.
+Optional case key "debug": run the history with Deferred debugging on
+(defer.setDebugging(True)); it is documented to add tracebacks to AlreadyCalledError
+and nothing else, so every statement of the property must hold unchanged.
 
 After every operation the outcome (accepted / AlreadyCalledError / exception of
 a raising canceller) and the state of every Deferred are compared with a small
@@ -27,11 +32,11 @@ from lib.core import hyp_run, enumerate_run
 META = dict(
     property="C03",
     level="exploration",
-    technique="complete enumeration of all histories of length <= 6 (thorough <= 7, <= 8 for inner Deferreds without canceller) over 7 operations, and of length <= 5 (thorough <= 6) over 10 operations that also build chains three deep, x canceller kinds, plus Hypothesis histories to length 20, against a sequential model of the fire-once / cancel protocol; compared after every operation, with a two-fire epilogue per Deferred",
+    technique="complete enumeration of all histories of length <= 6 (thorough <= 7, <= 8 for inner Deferreds without canceller) over 7 operations, and of length <= 5 (thorough <= 6) over 10 operations that also build chains three deep, x canceller kinds, an 8-operation alphabet with pause/unpause of the outer Deferred, a small scope with Deferred debugging switched on, plus Hypothesis histories to length 20 (pause/unpause of any Deferred, debugging on for a quarter of them), against a sequential model of the fire-once / cancel protocol; compared after every operation, with a two-fire epilogue per Deferred",
     level_text="All histories over {callback, errback, cancel, add callback returning a fresh inner Deferred, fire latest inner ok/fail, cancel latest inner} of the stated length are run for the listed (outer canceller, inner canceller) pairs; a second, 10-operation alphabet adds {add a callback returning a fresh Deferred to the latest inner Deferred, fire / cancel the second-latest Deferred}, so that cancel() has to be forwarded through an intermediate Deferred that has itself fired and is waiting (histories that contain an ignored inner operation are left out: they equal a shorter history; the comparison after every operation covers all prefixes). Hypothesis adds histories up to length 20 that address any inner Deferred and mix canceller kinds per inner Deferred. Exhaustive only inside that scope.",
     level_note="Trusted base: the model in this file (class Model), written from the docstrings of Deferred.__init__ (canceller), callback, errback and cancel. A canceller that raises is expected to propagate out of cancel() and leave the Deferred unfired (documented behaviour). Callbacks do not call back into Deferreds except through cancellers.",
     design_ref="§5 C03",
-    rule="case = (outer canceller, inner canceller, ops). Non-trivial = the history contains a cancel() of some Deferred followed later by a callback/errback on that same Deferred; distinct by the whole case. Classes: late result swallowed, AlreadyCalledError, cancel forwarded to the inner Deferred, canceller fired / did nothing / raised, cancel on a fired Deferred that waits on nothing, cancel forwarded through a fired intermediate Deferred (chain three deep).",
+    rule="case = (outer canceller, inner canceller, ops). Non-trivial = the history contains a cancel() of some Deferred followed later by a callback/errback on that same Deferred; distinct by the whole case. Classes: late result swallowed, AlreadyCalledError, cancel forwarded to the inner Deferred, canceller fired / did nothing / raised, cancel on a fired Deferred that waits on nothing, cancel forwarded through a fired intermediate Deferred (chain three deep), cancel of a fired Deferred that was handed its awaited result while user-paused, histories run with Deferred debugging on.",
 )
 
 KINDS = ["none", "noop", "cb", "eb", "raise"]
@@ -54,7 +59,7 @@ class CancellerBoom(Exception):
 # model
 
 class _MD:
-    __slots__ = ("i", "called", "result", "paused", "cbs", "kind", "cancel_calls", "swallow")
+    __slots__ = ("i", "called", "result", "paused", "cbs", "kind", "cancel_calls", "swallow", "handed_paused")
 
     def __init__(self, i, kind):
         self.i = i
@@ -65,6 +70,7 @@ class _MD:
         self.kind = kind
         self.cancel_calls = 0
         self.swallow = False      # one late result will be ignored
+        self.handed_paused = False   # got the result it waited for while still paused by its owner
 
 
 class Model:
@@ -122,7 +128,19 @@ class Model:
                 self.ev.add("cancel forwarded through a fired intermediate (chain >= 3 deep)")
             return self.cancel(self.ds[d.result[1]], hops + 1)
         self.ev.add("cancel of fired Deferred: no effect")
+        if d.paused:
+            self.ev.add("cancel of a fired, paused Deferred that waits on nothing: no effect")
+        if d.handed_paused:
+            self.ev.add("cancel of a fired Deferred that was handed its awaited result while user-paused: no effect")
         return "ok"
+
+    def pause(self, d):
+        d.paused += 1
+
+    def unpause(self, d):
+        d.paused -= 1
+        if d.paused == 0 and d.called:
+            self._run(d)
 
     def add(self, d, cid, target):
         d.cbs.append((cid, target))
@@ -141,6 +159,9 @@ class Model:
                 w.paused -= 1
                 if w.paused == 0:
                     self._run(w)
+                else:
+                    w.handed_paused = True
+                    self.ev.add("result handed to a waiter that is still paused by its owner")
                 continue
             cid, target = e
             self.log.append((cid, d.result))
@@ -260,6 +281,7 @@ def _execute(case):
     inners = []
     cancelled = set()
     nt = False
+    own_pause = {}
 
     def mk_cb(cid, target):
         def f(arg):
@@ -316,6 +338,24 @@ def _execute(case):
                 if got != m:
                     return ("cancel-outcome:expected-%s-got-%s" % (m, got),
                             "op %d %r: inner cancel() %s, model says %s" % (n, op, got, m)), None
+        elif k in ("pause", "unpause"):
+            t = op[1]
+            if t == "o":
+                i = 0
+            elif isinstance(t, int) and inners and -len(inners) <= t < len(inners):
+                i = inners[t]
+            else:
+                continue
+            if k == "pause":
+                own_pause[i] = own_pause.get(i, 0) + 1
+                reals[i].pause()
+                model.pause(model.ds[i])
+            else:
+                if own_pause.get(i, 0) <= 0:
+                    continue
+                own_pause[i] -= 1
+                reals[i].unpause()
+                model.unpause(model.ds[i])
         else:
             continue
         mm = compare(n, op)
@@ -351,16 +391,26 @@ def _fire_mismatch(got, m):
 
 
 def _key(case):
-    return "%s|%s|" % (case["outer"], case["inner"]) + ";".join(",".join(str(x) for x in op) for op in case["ops"])
+    return "%s|%s|%s|" % (case["outer"], case["inner"], "dbg" if case.get("debug") else "") + ";".join(",".join(str(x) for x in op) for op in case["ops"])
 
 
 def run_case(ctx, case):
     if case["outer"] not in KINDS or case["inner"] not in KINDS:
         return
-    mm, stats = _execute(case)
+    from twisted.internet import defer
+    debug = bool(case.get("debug"))
+    old = defer.getDebugging()
+    defer.setDebugging(debug)
+    try:
+        mm, stats = _execute(case)
+    finally:
+        defer.setDebugging(old)
     if mm is not None:
-        ctx.violation(mm[0], case, "outer canceller=%s inner canceller=%s history=%r: %s"
-                      % (case["outer"], case["inner"], case["ops"], mm[1]))
+        ctx.violation(mm[0] + (":debugging-on" if debug else ""), case,
+                      "outer canceller=%s inner canceller=%s%s history=%r: %s"
+                      % (case["outer"], case["inner"], " Deferred debugging ON" if debug else "", case["ops"], mm[1]))
+    if debug:
+        ctx.count("history run with Deferred debugging on")
     for label in stats["ev"]:
         ctx.count(label)
     if stats["nt"]:
@@ -374,22 +424,28 @@ def run_case(ctx, case):
 
 ALPHABET = [["cb"], ["eb"], ["cancel"], ["add"], ["fi", -1, "ok"], ["fi", -1, "fail"], ["ci", -1]]
 ALPHABET10 = ALPHABET + [["addto", -1], ["fi", -2, "ok"], ["ci", -2]]
-ALPHABETS = {"a7": ALPHABET, "a10": ALPHABET10}
+ALPHABET8P = [["cb"], ["cancel"], ["add"], ["addto", -1], ["fi", -1, "ok"], ["fi", -2, "ok"],
+              ["pause", "o"], ["unpause", "o"]]
+ALPHABETS = {"a7": ALPHABET, "a10": ALPHABET10, "a8p": ALPHABET8P}
 
 
 def _enum_shard(ctx, arg):
     name, outer, inner, length, first = arg
+    debug = name.endswith("+debug")
+    name = name.split("+")[0]
     A = ALPHABETS[name]
     n = len(A)
     # how many inner Deferreds an operation needs / whether it creates one
     need = [(-op[1] if op[0] in ("fi", "ci", "addto") else 0) for op in A]
     makes = [op[0] in ("add", "addto") for op in A]
+    pz = [(1 if op[0] == "pause" else -1 if op[0] == "unpause" else 0) for op in A]
 
     def cases():
         idx = [0] * (length - 1)
         while True:
             seq = [first] + idx
             have = 0
+            own = 0
             ok = True
             for x in seq:
                 if need[x] > have:
@@ -397,8 +453,15 @@ def _enum_shard(ctx, arg):
                     break
                 if makes[x]:
                     have += 1
+                own += pz[x]
+                if own < 0:          # an unpause the harness would ignore
+                    ok = False
+                    break
             if ok:
-                yield dict(outer=outer, inner=inner, ops=[A[x] for x in seq])
+                c = dict(outer=outer, inner=inner, ops=[A[x] for x in seq])
+                if debug:
+                    c["debug"] = True
+                yield c
             p = length - 2
             while p >= 0:
                 idx[p] += 1
@@ -408,12 +471,14 @@ def _enum_shard(ctx, arg):
                 p -= 1
             if p < 0:
                 return
-    if need[first] == 0:
+    if need[first] == 0 and pz[first] >= 0:
         enumerate_run(ctx, cases(), run_case)
 
 
 HYP_OPS = ([["cb"]] * 4 + [["eb"]] * 3 + [["cancel"]] * 6 + [["add"]] * 3
            + [["add", k] for k in KINDS]
+           + [["pause", "o"]] * 2 + [["unpause", "o"]] * 2
+           + [[v, t] for v in ("pause", "unpause") for t in (-1, -2, 0)]
            + [["addto", -1]] * 3 + [["addto", k] for k in (-2, 0)] + [["addto", -1, k] for k in KINDS]
            + [["fi", k, h] for k in (-2, -1, -1, 0, 1) for h in ("ok", "fail")]
            + [["ci", k] for k in (-2, -1, -1, 0, 1)])
@@ -424,6 +489,7 @@ def histories():
         dict,
         outer=st.sampled_from(["none", "none", "noop", "cb", "eb", "raise"]),
         inner=st.sampled_from(KINDS),
+        debug=st.sampled_from([False, False, False, True]),
         ops=st.lists(st.sampled_from(HYP_OPS), min_size=1, max_size=20))
 
 
@@ -433,17 +499,22 @@ def _hyp_shard(ctx, i):
 
 QUICK_PAIRS = [("a7", o, "none", 6 if o in ("none", "noop") else 5) for o in KINDS] + [
     ("a7", "none", "noop", 5), ("a7", "none", "cb", 5), ("a7", "none", "raise", 5), ("a7", "noop", "eb", 5),
-    ("a10", "none", "none", 6), ("a10", "cb", "noop", 5), ("a10", "noop", "raise", 5), ("a10", "none", "cb", 5)]
+    ("a10", "none", "none", 6), ("a10", "cb", "noop", 5), ("a10", "noop", "raise", 5), ("a10", "none", "cb", 5),
+    ("a8p", "none", "none", 6), ("a8p", "none", "noop", 6), ("a8p", "cb", "raise", 5),
+    ("a7+debug", "none", "none", 5), ("a7+debug", "noop", "cb", 5), ("a10+debug", "none", "noop", 4)]
 
 
 def run(ctx):
     if ctx.thorough:
         pairs = [("a7", o, i, 8 if i == "none" else 7) for o in KINDS for i in KINDS] \
-            + [("a10", o, i, 6) for o in KINDS for i in KINDS]
+            + [("a10", o, i, 6) for o in KINDS for i in KINDS] \
+            + [("a8p", o, i, 7) for o in KINDS for i in KINDS] \
+            + [("a7+debug", o, i, 6) for o in KINDS for i in KINDS] \
+            + [("a10+debug", o, "noop", 5) for o in KINDS]
     else:
         pairs = QUICK_PAIRS
     args = [(name, o, i, length, first) for (name, o, i, length) in pairs
-            for first in range(len(ALPHABETS[name]))]
+            for first in range(len(ALPHABETS[name.split("+")[0]]))]
     ctx.shards(_enum_shard, args, procs=None if ctx.thorough else 1)
     ctx.extra["exhaustive_scope"] = dict(
         alphabets=ALPHABETS,
